@@ -192,25 +192,42 @@ impl FunctionCompiler<'_> {
             hir::Expr::ArrayLiteral { items, .. } => {
                 assert_ne!(items.len(), 0);
 
-                let item_ty = self.tys[loc.wrap()][items[0]];
-                let item_size = item_ty.size();
-                let item_stride = item_ty.stride();
+                // the items are laid out as the array's element type, which an item can differ
+                // from (`i64.[a, b]` with `a : i32`): such an item is converted like a cast would
+                let elem_ty = self.tys[loc.wrap()][expr]
+                    .as_array()
+                    .map(|(_, sub_ty)| sub_ty)
+                    .unwrap_or(self.tys[loc.wrap()][items[0]]);
+                let elem_size = elem_ty.size() as usize;
+                let elem_stride = elem_ty.stride() as usize;
 
-                let mut array = Vec::<u8>::with_capacity(item_stride as usize * items.len());
+                let mut array = vec![0u8; elem_stride * items.len()];
 
                 for (idx, item) in items.into_iter().enumerate() {
-                    let item = self.expr_to_const_data(loc, item)?;
+                    let item_ty = self.tys[loc.wrap()][item];
+                    let mut bytes = self.expr_to_const_data(loc, item)?.into_vec();
 
-                    unsafe {
-                        std::ptr::copy_nonoverlapping(
-                            item.as_ptr(),
-                            array.as_mut_ptr().add(idx * item_stride as usize),
-                            item_size as usize,
-                        );
+                    if let (Some(from), Some(to)) = (
+                        item_ty.get_final_ty().into_number_type(),
+                        elem_ty.get_final_ty().into_number_type(),
+                    ) && !from.float
+                        && !to.float
+                        && bytes.len() != elem_size
+                        && self.module.isa().endianness() == Endianness::Little
+                    {
+                        // sign- or zero-extend (or truncate) the little-endian integer
+                        let fill = if from.signed && bytes.last().is_some_and(|b| b & 0x80 != 0) {
+                            0xff
+                        } else {
+                            0
+                        };
+                        bytes.resize(elem_size, fill);
                     }
-                }
 
-                unsafe { array.set_len(array.capacity()) }
+                    let len = bytes.len().min(elem_size);
+                    array[idx * elem_stride..idx * elem_stride + len]
+                        .copy_from_slice(&bytes[..len]);
+                }
 
                 array.into()
             }
